@@ -35,7 +35,7 @@ import (
 // cases
 
 type OpJ struct {
-	Op    string      `json:"op"` // save | delete | deleteUpstream | flush | stop | load | restart
+	Op    string      `json:"op"` // save | saveStored | delete | deleteUpstream | flush | stop | load | restart
 	Key   string      `json:"key"`
 	Cond  *CondJ      `json:"cond,omitempty"`
 	Name  string      `json:"name"`
@@ -119,7 +119,7 @@ func (cs *Case) upstreams() []string {
 		if o.Cond != nil {
 			set[o.Cond.Up] = true
 		}
-		if o.Key != "" || o.Op == "save" || o.Op == "delete" || o.Op == "deleteUpstream" {
+		if o.Key != "" || o.Op == "save" || o.Op == "saveStored" || o.Op == "delete" || o.Op == "deleteUpstream" {
 			set[o.Key] = true
 		}
 	}
@@ -311,6 +311,21 @@ func (r *runner) thunk(op OpJ) func() error {
 	case "save":
 		obj := toObj(*op.Cond)
 		return func() error { return r.store.Save(rig.UnHex(op.Key), obj) }
+	case "saveStored":
+		// how the limiter keeps <upstream>.state and reported conditions: Get hands out the stored pointer, the
+		// caller changes it in place and saves that same pointer
+		edit := toObj(*op.Cond)
+		return func() error {
+			obj, err := r.store.Get(rig.UnHex(op.Key), rig.UnHex(op.Name))
+			if err != nil {
+				return err
+			}
+			obj.Spec.Instance = edit.Spec.Instance
+			obj.Spec.LimitItemConfigurations = edit.Spec.LimitItemConfigurations
+			obj.Status = edit.Status
+			obj.Labels = edit.Labels
+			return r.store.Save(rig.UnHex(op.Key), obj)
+		}
 	case "delete":
 		return func() error { return r.store.Delete(rig.UnHex(op.Key), rig.UnHex(op.Name)) }
 	case "deleteUpstream":
